@@ -49,7 +49,7 @@ const F_CAT: u32 = 12;
 const F_ATTRS: u32 = 13;
 /// model-side fast "field" of the JSON path `attrs.<JKEYS[i]>`
 const F_JSON_FAST0: u32 = 100;
-const JKEYS: [&str; 3] = ["k", "n", "t"];
+const JKEYS: [&str; 5] = ["k", "n", "t", "u", "x"];
 const FIELD_NAMES: [&str; 14] = ["id", "body", "title", "tag", "num", "inum", "score", "when", "ip", "flag", "blob", "ifast", "cat", "attrs"];
 
 const K_F4: &str = "C03:msm-ignored-single-should-clause";
@@ -60,6 +60,9 @@ const K_IP_OVERFLOW: &str = "C03:ip-range-excluded-bound-overflow";
 const K_FZP: &str = "C03:fuzzy-prefix-forgets-improvable-prefix-match";
 const K_RANGE_UNDERFLOW: &str = "C03:excluded-range-docset-seek-distance-underflow";
 const K_BWI_JSON: &str = "C03:block-wand-intersection-json-numeric-term-panic";
+const K_JSON_U64_LOWER: &str = "C03:json-range-u64-lower-bound-on-i64-column";
+const K_JSON_F64_FRACT: &str = "C03:json-range-f64-fractional-bound-rounded-toward-zero";
+const K_JSON_F64_BELOW: &str = "C03:json-range-f64-upper-bound-below-u64-column-min";
 const K_S6B: &str = "C03:phrase-slop3-differs-from-budget-meaning";
 
 fn fld(id: u32) -> Field {
@@ -123,6 +126,9 @@ enum JVal {
     Str(String),
     Int(i64),
     Bool(bool),
+    UInt(u64),
+    /// the float h / 2 (the path's column becomes f64)
+    Half(i64),
 }
 
 fn json_term(key: usize) -> Term {
@@ -288,6 +294,20 @@ fn analyse(index: &Index, d: &DocSpec) -> MDoc {
                     m.postings.push((F_ATTRS, term.bytes(), vec![0]));
                     m.fast.push((F_JSON_FAST0 + *k as u32, term.enc()));
                 }
+                JVal::UInt(u) => {
+                    // JSON numbers are indexed as i64 when they fit, as u64 otherwise
+                    let mut t = json_term(*k);
+                    if *u <= i64::MAX as u64 { t.append_type_and_fast_value(*u as i64); } else { t.append_type_and_fast_value(*u); }
+                    m.postings.push((F_ATTRS, t.serialized_value_bytes().to_vec(), vec![0]));
+                    m.fast.push((F_JSON_FAST0 + *k as u32, *u as u128));
+                }
+                JVal::Half(h) => {
+                    // floats are normalised to an integer term when they are integral
+                    let mut t = json_term(*k);
+                    if *h % 2 == 0 { t.append_type_and_fast_value(*h / 2); } else { t.append_type_and_fast_value(*h as f64 / 2.0); }
+                    m.postings.push((F_ATTRS, t.serialized_value_bytes().to_vec(), vec![0]));
+                    m.fast.push((F_JSON_FAST0 + *k as u32, (*h as i128 + (1i128 << 60)) as u128));
+                }
                 JVal::Bool(bv) => {
                     let mut t = json_term(*k);
                     t.append_type_and_fast_value(*bv);
@@ -320,6 +340,8 @@ fn to_tantivy_doc(d: &DocSpec) -> TantivyDocument {
             JVal::Str(s) => OwnedValue::Str(s.clone()),
             JVal::Int(i) => OwnedValue::I64(*i),
             JVal::Bool(b) => OwnedValue::Bool(*b),
+            JVal::UInt(u) => OwnedValue::U64(*u),
+            JVal::Half(h) => OwnedValue::F64(*h as f64 / 2.0),
         })).collect();
         t.add_object(fld(F_ATTRS), obj);
     }
@@ -1667,7 +1689,9 @@ fn check_phrase_algorithms(ctx: &mut Ctx, spec: &CorpusSpec, b: &Built, rng: &mu
     for _ in 0..n_queries {
         let n = 2 + rng.usize_below(3);
         let terms: Vec<(usize, String)> = (0..n).map(|i| (i, rng.pick(&words).clone())).collect();
-        let slop = 1 + rng.below(3) as u32;
+        let slop_drawn = 1 + rng.below(3) as u32;
+        // the same terms once with the drawn slop and once exact (slop 0: sorted-merge intersections)
+        for slop in [slop_drawn, 0u32] {
         let q = Q::Phrase { f: F_BODY, terms: terms.clone(), slop };
         let case = json!({"kind": "phrase-algorithms", "corpus": spec, "query": q});
         let rq = q.real();
@@ -1716,6 +1740,7 @@ fn check_phrase_algorithms(ctx: &mut Ctx, spec: &CorpusSpec, b: &Built, rng: &mu
             }
         }
     }
+        }
 }
 
 // ---------------------------------------------------------------------------------------------
@@ -1872,6 +1897,177 @@ fn exhaustive_bool(ctx: &mut Ctx, max_clauses: usize) {
     ctx.report.count_n("exhaustive-should-family:queries", fam_total);
 }
 
+// ---------------------------------------------------------------------------------------------
+// range over a numeric JSON path: bound type (i64 / u64 term) × column type (i64 / u64)
+// ---------------------------------------------------------------------------------------------
+
+#[derive(Clone, Debug, Serialize, Deserialize, PartialEq)]
+enum JB {
+    Unb,
+    /// (inclusive, is_u64_term, value)
+    Val(bool, bool, i128),
+    /// (inclusive, h): an f64 term with the value h / 2
+    F(bool, i64),
+}
+
+fn jb_bound(key: usize, b: &JB) -> Bound<Term> {
+    match b {
+        JB::Unb => Bound::Unbounded,
+        JB::Val(incl, is_u, v) => {
+            let mut t = json_term(key);
+            if *is_u { t.append_type_and_fast_value(*v as u64); } else { t.append_type_and_fast_value(*v as i64); }
+            if *incl { Bound::Included(t) } else { Bound::Excluded(t) }
+        }
+        JB::F(incl, h) => {
+            let mut t = json_term(key);
+            t.append_type_and_fast_value(*h as f64 / 2.0);
+            if *incl { Bound::Included(t) } else { Bound::Excluded(t) }
+        }
+    }
+}
+
+fn jb_model(b: &JB) -> String {
+    match b {
+        JB::Unb => "u i 0".into(),
+        JB::Val(incl, is_u, v) => format!("{} {} {}", if *incl { "i" } else { "e" }, if *is_u { "u" } else { "i" }, v),
+        JB::F(incl, h) => format!("{} f {}", if *incl { "i" } else { "e" }, h),
+    }
+}
+
+/// `hv` = twice the value (half-units)
+fn jb_holds(lo: &JB, hi: &JB, hv: i128) -> bool {
+    (match lo { JB::Unb => true, JB::Val(true, _, b) => 2 * *b <= hv, JB::Val(false, _, b) => 2 * *b < hv, JB::F(true, h) => (*h as i128) <= hv, JB::F(false, h) => (*h as i128) < hv })
+        && (match hi { JB::Unb => true, JB::Val(true, _, b) => hv <= 2 * *b, JB::Val(false, _, b) => hv < 2 * *b, JB::F(true, h) => hv <= *h as i128, JB::F(false, h) => hv < *h as i128 })
+}
+
+/// one (corpus, path, bounds) case; the corpus holds only the JSON field
+fn check_json_range_case(ctx: &mut Ctx, spec: &CorpusSpec, b: &Built, key: usize, lo: &JB, hi: &JB) {
+    let case = json!({"kind": "json-range", "corpus": spec, "key": key, "lo": lo, "hi": hi});
+    let q = RangeQuery::new(jb_bound(key, lo), jb_bound(key, hi));
+    // value of the path in the document; keys n / u hold integers, key x half-units (floats h / 2)
+    let value_of = |d: &MDoc| -> Option<i128> {
+        d.fast.iter().find(|(f, _)| *f == F_JSON_FAST0 + key as u32).map(|(_, v)| if key == 1 { (*v as i128) - (1i128 << 63) } else if key == 4 { (*v as i128) - (1i128 << 60) } else { *v as i128 })
+    };
+    let unit: i128 = if key == 4 { 1 } else { 2 };
+    // brute force over the live documents
+    let mut expect: Vec<u64> = b.segs.iter().flat_map(|s| s.iter()).filter(|(d, alive)| *alive && value_of(d).map(|v| jb_holds(lo, hi, v * unit)).unwrap_or(false)).map(|(d, _)| d.id).collect();
+    expect.sort();
+    // implementation model, per segment (the column type is a property of the segment)
+    let mut model: Vec<u64> = vec![];
+    let mut u64_lower_on_i64 = false;
+    let mut f64_upper_below_min = false;
+    // a fractional bound is replaced by Included(trunc): wrong for a positive lower / negative upper bound
+    let f64_fract = matches!(lo, JB::F(_, h) if *h > 0 && *h % 2 != 0) || matches!(hi, JB::F(_, h) if *h < 0 && *h % 2 != 0);
+    for seg in &b.segs {
+        let vals: Vec<(u64, bool, i128)> = seg.iter().filter_map(|(d, alive)| value_of(d).map(|v| (d.id, *alive, v))).collect();
+        if vals.is_empty() { continue; }
+        // key "n" holds values supplied as i64, key "u" values supplied as u64: a u64-supplied value keeps
+        // the column i64 only when it is strictly below i64::MAX (columnar accept_value)
+        let col = if key == 4 { "f" } else if key == 1 || vals.iter().all(|x| x.2 < i64::MAX as i128) { "i" } else { "u" };
+        if col == "i" { if let JB::Val(_, true, v) = lo { if *v > i64::MAX as i128 { u64_lower_on_i64 = true; } } }
+        if col == "u" { if let JB::F(_, h) = hi { if *h < 0 { f64_upper_below_min = true; } } }
+        let list = vals.iter().map(|x| x.2.to_string()).collect::<Vec<_>>().join(",");
+        let ans = ctx.model.ask(&format!("C03 jrange {col} {} {} {} {list}", if key == 1 { "i" } else if key == 4 { "f" } else { "u" }, jb_model(lo), jb_model(hi)));
+        let parts: Vec<&str> = ans.split('|').collect();
+        if parts.len() != 3 || parts[0].len() != vals.len() {
+            ctx.report.violation("model", "C03:model-rejected-request", format!("jrange answered {ans}"), case.clone());
+            return;
+        }
+        if parts[2] != "1" {
+            ctx.report.violation("model", "C03:json-column-type-model-vs-harness", format!("column type {col} not predicted by colOf for {list}"), case.clone());
+        }
+        for (i, x) in vals.iter().enumerate() {
+            if x.1 && parts[0].as_bytes()[i] == b'1' { model.push(x.0); }
+        }
+    }
+    model.sort();
+    let n_docs: usize = b.segs.iter().map(|s| s.len()).sum();
+    let real = match catch_unwind(AssertUnwindSafe(|| {
+        let s = &b.searcher;
+        let a = s.search(&q, &DocSetCollector).map(|x| ids_of(s, x.into_iter()));
+        let c = s.search(&q, &Count).map(|c| c as u64);
+        let t = s.search(&q, &TopDocs::with_limit(n_docs + 1).order_by_score()).map(|v| ids_of(s, v.into_iter().map(|x| x.1)));
+        (a, c, t)
+    })) {
+        Ok(r) => r,
+        Err(_) => { ctx.report.violation("oracle", "C03:panic", format!("json range panicked ({})", last_panic()), case); return; }
+    };
+    ctx.report.count(&format!("json-range:key-{}:{}", JKEYS[key], match lo { JB::Val(_, true, _) => "u64-term", JB::Val(_, false, _) => "i64-term", JB::F(..) => "f64-term", JB::Unb => match hi { JB::Val(_, true, _) => "u64-term", JB::F(..) => "f64-term", _ => "i64-term" } }));
+    ctx.report.case(&format!("jr|{}|{:?}|{:?}|{}", key, lo, hi, n_docs), !expect.is_empty() && expect.len() < b.expected_live.len());
+    let outs: Vec<(&str, Result<Vec<u64>, String>)> = vec![
+        ("DocSetCollector", real.0.map_err(|e| e.to_string())),
+        ("TopDocs", real.2.map_err(|e| e.to_string())),
+    ];
+    for (name, out) in outs {
+        match out {
+            Err(e) => ctx.report.violation("oracle", "C03:unexpected-error", format!("{name}: {e} for json range {:?}..{:?} on attrs.{}", lo, hi, JKEYS[key]), case.clone()),
+            Ok(ids) => {
+                if ids != expect {
+                    let key_v = if ids == model && u64_lower_on_i64 { K_JSON_U64_LOWER }
+                        else if ids == model && f64_upper_below_min { K_JSON_F64_BELOW }
+                        else if ids == model && f64_fract { K_JSON_F64_FRACT }
+                        else { "C03:json-range-differs-from-numeric-meaning" };
+                    ctx.report.violation("oracle", key_v, format!("{name} gives {} but the numeric meaning gives {} for attrs.{}: {:?} .. {:?}", short(&ids), short(&expect), JKEYS[key], lo, hi), case.clone());
+                }
+                if ids != model {
+                    ctx.report.violation("model", "C03:json-range-coercion-model-vs-implementation", format!("{name} gives {} but the coercion model gives {} for attrs.{}: {:?} .. {:?}", short(&ids), short(&model), JKEYS[key], lo, hi), case.clone());
+                }
+            }
+        }
+    }
+    match real.1 {
+        Ok(c) if c as usize == model.len() => {}
+        other => ctx.report.violation("model", "C03:json-range-coercion-model-vs-implementation", format!("Count gives {:?} but the coercion model gives {} ids", other.map_err(|e| e.to_string()), model.len()), case.clone()),
+    }
+}
+
+fn check_json_ranges(ctx: &mut Ctx, n_corpora: u64, n_queries: usize) {
+    let ivals: [i128; 9] = [i64::MIN as i128, -4097, -5, -1, 0, 1, 5, 4096, i64::MAX as i128];
+    let uvals: [i128; 9] = [0, 1, 5, 4096, i64::MAX as i128, i64::MAX as i128 + 1, i64::MAX as i128 + 6, u64::MAX as i128 - 1, u64::MAX as i128];
+    for _ in 0..n_corpora {
+        let mut rng = ctx.rng.fork();
+        let n = 6 + rng.usize_below(40);
+        let big = rng.chance(2, 3);
+        let docs: Vec<DocSpec> = (0..n).map(|i| {
+            let mut attrs = vec![];
+            if rng.chance(3, 4) { attrs.push((1usize, JVal::Int(if rng.chance(1, 2) { *rng.pick(&ivals) as i64 } else { rng.below(12) as i64 - 6 }))); }
+            if rng.chance(3, 4) {
+                let v = if big && rng.chance(1, 3) { *rng.pick(&uvals[5..]) as u64 } else if rng.chance(1, 2) { *rng.pick(&uvals[..5]) as u64 } else { rng.below(12) };
+                attrs.push((3usize, JVal::UInt(v)));
+            }
+            if rng.chance(1, 2) { attrs.push((4usize, JVal::Half(*rng.pick(&[-13i64, -10, -3, -2, -1, 0, 1, 2, 3, 10, 8193, 16386])))); }
+            DocSpec { id: 1000 + i as u64, attrs: Some(attrs), ..Default::default() }
+        }).collect();
+        let nseg = 1 + rng.usize_below(3);
+        let mut chunks = vec![];
+        let mut left = n;
+        for sidx in 0..nseg { let c = if sidx + 1 == nseg { left } else { 1 + rng.usize_below(left.max(2) - 1) }; chunks.push(c.min(left)); left -= c.min(left); }
+        let deletes = if rng.chance(1, 2) { vec![(chunks.len() - 1, 1000 + rng.below(n as u64))] } else { vec![] };
+        let _ = rng.chance(1, 4);
+        // no merge here: the column type of a merged segment follows the merger's own coercion rule
+        let spec = CorpusSpec { docs, chunks, cut: 0, deletes, merge: false };
+        let b = match build(&spec) { Ok(b) => b, Err(e) => { ctx.report.violation("oracle", "C03:index-build-failed", e, json!({"kind":"corpus","corpus":spec})); continue; } };
+        for _ in 0..n_queries {
+            let key = *rng.pick(&[1usize, 3, 4]);
+            let is_u = rng.chance(1, 2);
+            let mut bound = |rng: &mut Rng| -> JB {
+                if rng.chance(1, 5) { return JB::Unb; }
+                let v = if is_u { *rng.pick(&uvals) } else { *rng.pick(&ivals) };
+                JB::Val(rng.chance(1, 2), is_u, v)
+            };
+            let (mut lo, hi) = (bound(&mut rng), bound(&mut rng));
+            if lo == JB::Unb && hi == JB::Unb { lo = JB::Val(true, is_u, 0); }
+            check_json_range_case(ctx, &spec, &b, key, &lo, &hi);
+            // the same shape with f64 terms (halves: exact in binary64)
+            let hs: [i64; 11] = [-13, -10, -3, -2, -1, 0, 1, 2, 3, 10, 8193];
+            let mut fb = |rng: &mut Rng| -> JB { if rng.chance(1, 5) { JB::Unb } else { JB::F(rng.chance(1, 2), *rng.pick(&hs)) } };
+            let (mut flo, fhi) = (fb(&mut rng), fb(&mut rng));
+            if flo == JB::Unb && fhi == JB::Unb { flo = JB::F(true, 1); }
+            check_json_range_case(ctx, &spec, &b, key, &flo, &fhi);
+        }
+    }
+}
+
 pub fn replay(ctx: &mut Ctx, case: &serde_json::Value) {
     match case["kind"].as_str().unwrap_or("") {
         "query" | "phrase-algorithms" => {
@@ -1891,6 +2087,18 @@ pub fn replay(ctx: &mut Ctx, case: &serde_json::Value) {
                 Err(e) => ctx.report.violation("oracle", "C03:index-build-failed", e, case.clone()),
             }
         }
+        "json-range" => {
+            let spec: Result<CorpusSpec, _> = serde_json::from_value(case["corpus"].clone());
+            let lo: Result<JB, _> = serde_json::from_value(case["lo"].clone());
+            let hi: Result<JB, _> = serde_json::from_value(case["hi"].clone());
+            match (spec, lo, hi, case["key"].as_u64()) {
+                (Ok(spec), Ok(lo), Ok(hi), Some(key)) => match build(&spec) {
+                    Ok(b) => check_json_range_case(ctx, &spec, &b, key as usize, &lo, &hi),
+                    Err(e) => ctx.report.violation("oracle", "C03:index-build-failed", e, case.clone()),
+                },
+                _ => ctx.report.notes.push("replay: bad json-range case".into()),
+            }
+        }
         "enc" => check_encodings(ctx),
         k => ctx.report.notes.push(format!("replay kind {k:?} re-runs the generated stream")),
     }
@@ -1908,6 +2116,8 @@ pub fn run(ctx: &mut Ctx) {
         "known deviations are attributed only when Lean okQ (F4 / S6 hypotheses) is false on the query and the implementation model reproduces every real path".into(),
         "phrase slop: real scoring-on / scoring-off scorers = Lean phraseOn / phraseOff per document".into(),
         "i64_to_u64 / f64_to_u64 = Gen.OrderEnc (extracted), monotone on sorted samples, term bytes = big-endian".into(),
+        "range over a numeric JSON path (i64 / u64 bound term × i64 / u64 column, incl / excl / unbounded): DocSetCollector, TopDocs, Count = numeric meaning = Lean JsonRange.implMatch per segment; column type = colOf".into(),
+        "phrase-prefix queries with position gaps / shifted offsets: all paths = Lean semPhrasePrefix (C03_phrase_prefix_iff)".into(),
         "exhaustive boolean trees (≤ 2 clauses quick, ≤ 3 thorough) × occur × msm over term/all/empty leaf kinds: all paths = answer = compile model".into(),
     ];
     std::panic::set_hook(Box::new(|info| {
@@ -1971,6 +2181,38 @@ pub fn run(ctx: &mut Ctx) {
         }
         if size_class <= 1 {
             check_phrase_algorithms(ctx, &spec, &b, &mut rng, 6);
+        }
+    }
+    // last, so that the random stream of the stages above is unchanged
+    let (jc, jq) = (ctx.budget(8, 120), ctx.budget(30, 60) as usize);
+    check_json_ranges(ctx, jc, jq);
+    // phrase-prefix queries with position gaps (before the prefix term, between full terms, offsets
+    // not starting at 0): C03_phrase_prefix_iff / C03_phrase_prefix_gap
+    for _ in 0..ctx.budget(4, 60) {
+        let mut rng = ctx.rng.fork();
+        let spec = gen_corpus(&mut rng, 1);
+        let b = match build(&spec) { Ok(b) => b, Err(_) => continue };
+        let pools = pools_of(&b);
+        let mut qs: Vec<Q> = vec![];
+        for _ in 0..12 {
+            let g = 1 + rng.usize_below(3);
+            let base = rng.usize_below(3);
+            let three = rng.chance(1, 3);
+            let need = if three { 2 + g } else { 1 + g };
+            let Some(ws) = seq_terms(&mut rng, &pools, need) else { continue };
+            let cut = |w: &String, rng: &mut Rng| -> String { let cs: Vec<char> = w.chars().collect(); cs[..1 + rng.usize_below(cs.len())].iter().collect() };
+            let terms: Vec<(usize, String)> = if three {
+                vec![(base, ws[0].clone()), (base + 1, ws[1].clone()), (base + 1 + g, cut(&ws[1 + g], &mut rng))]
+            } else {
+                vec![(base, ws[0].clone()), (base + g, cut(&ws[g], &mut rng))]
+            };
+            let leaf = Q::PhrasePrefix { f: F_BODY, terms };
+            qs.push(leaf.clone());
+            if rng.chance(1, 2) { qs.extend(context_queries(&mut rng, &pools, &leaf).into_iter().take(2)); }
+        }
+        ctx.report.count_n("phrase-prefix-gap:queries", qs.len() as u64);
+        for chunk in qs.chunks(16) {
+            check_queries(ctx, &spec, &b, chunk);
         }
     }
 }
